@@ -19,7 +19,7 @@ import (
 	"verifharness/internal/rng"
 )
 
-var danglingKinds = []string{"parent-dropped", "parent-never", "refcol-dropped"}
+var danglingKinds = []string{"parent-dropped", "parent-never", "refcol-dropped", "self-renamed"}
 
 type dangling struct {
 	kind     string
@@ -44,6 +44,25 @@ func danglingGrid() (g []dangling) {
 
 // newDanglingCase builds the case; variant 0 is the bare core, larger variants add generated tables.
 func newDanglingCase(id, how string, r *rng.R, d dangling, variant int) *loopCase {
+	// the generated part may be a text SQLite rejects (the generator does not promise validity): redraw,
+	// and fall back to the bare core
+	for try := 0; try < 6; try++ {
+		v := variant
+		if try == 5 {
+			v = 0
+		}
+		c := buildDanglingCase(id, how, r, d, v)
+		db := freshDB()
+		err := execScript(db, c.script)
+		db.Close()
+		if err == nil {
+			return c
+		}
+	}
+	return buildDanglingCase(id, how, r, d, 0)
+}
+
+func buildDanglingCase(id, how string, r *rng.R, d dangling, variant int) *loopCase {
 	if d.kind == "parent-never" {
 		how = "hand" // Atlas cannot be asked to create a key to a table it is not given
 	}
@@ -77,8 +96,20 @@ func newDanglingCase(id, how string, r *rng.R, d dangling, variant int) *loopCas
 	if r.Bool() {
 		refCol, refType = "code", "text"
 	}
+	nch := d.children
+	if d.kind == "self-renamed" {
+		// the parent refers to itself; renamed under legacy_alter_table the clause keeps the old name.
+		// children = number of dangling keys: the self reference (+ one child)
+		nch--
+		parent.Cols = append(parent.Cols, hCol{Name: "up", Type: refType})
+		fk := hFK{Cols: []string{"up"}, RefTable: pn, RefCols: []string{refCol}}
+		if d.named {
+			fk.Name = "fk_up"
+		}
+		parent.FKs = append(parent.FKs, fk)
+	}
 	var children []hTable
-	for k := 0; k < d.children; k++ {
+	for k := 0; k < nch; k++ {
 		cn := pick([]string{"items", "Child", "c_1", "notes"}[(variant+k)%4], fmt.Sprintf("d_child%d", k), fmt.Sprintf("d_child%d_", k))
 		ch := hTable{Name: cn, Cols: []hCol{
 			{Name: "n", Type: "integer"},
@@ -168,6 +199,17 @@ func newDanglingCase(id, how string, r *rng.R, d dangling, variant int) *loopCas
 		c.ast = without(full)
 		c.ast.Tables = append(c.ast.Tables, np)
 		c.post = []string{fkOff, "DROP TABLE " + dqIdent(pn), "CREATE TABLE " + dqIdent(pn) + " (" + strings.Join(defs, ", ") + ")", fkOn}
+	}
+	if d.kind == "self-renamed" {
+		c.pre = full
+		nn := pick(pn+"_2", pn+"_3")
+		c.ast = full.clone()
+		for i := range c.ast.Tables {
+			if c.ast.Tables[i].Name == pn {
+				c.ast.Tables[i].Name = nn
+			}
+		}
+		c.post = []string{fkOff, "PRAGMA legacy_alter_table = on", "ALTER TABLE " + dqIdent(pn) + " RENAME TO " + dqIdent(nn), "PRAGMA legacy_alter_table = off", fkOn}
 	}
 	c.styleSeed = r.U64()
 	st := newStyle(rng.New(c.styleSeed), c.pre)
